@@ -66,7 +66,7 @@ fn c06_px(rng: &mut Rng, i: u64) -> [f32; 3] {
 type C6At = (usize, usize, [f32; 3], usize, f32, f64);
 
 pub fn c06(ctx: &Ctx) {
-    let per_pair: u64 = ctx.arg_u64("pixels").unwrap_or(if ctx.flag("lite") { 1 << 15 } else { ctx.pick(1 << 21, 1 << 25) });
+    let per_pair: u64 = ctx.arg_u64("pixels").unwrap_or(if ctx.flag("lite") { 1 << 15 } else { ctx.pick(1 << 21, 1 << 27) });
     let img: u64 = 4093; // prime pixel count per call
     let rounds = per_pair / img + 1;
     let np = PRIMARIES.len();
@@ -480,7 +480,7 @@ macro_rules! c19_instance {
 }
 
 pub fn c19(ctx: &Ctx) {
-    let total: u64 = ctx.arg_u64("cases").unwrap_or(if ctx.flag("lite") { 1 << 20 } else { ctx.pick(1 << 23, 1 << 28) });
+    let total: u64 = ctx.arg_u64("cases").unwrap_or(if ctx.flag("lite") { 1 << 20 } else { ctx.pick(1 << 23, 1 << 30) });
     let worst = Mutex::new(Worst::<(&'static str, &'static str, f64, f64)>::new());
     let worst_per_op: Mutex<std::collections::BTreeMap<String, f64>> = Mutex::new(Default::default());
     let winv = Mutex::new(Worst::<(&'static str, M3, f64)>::new());
